@@ -121,6 +121,28 @@ def run(tier):
                 boundary.append(sp)
                 boundary.append(sp + rng.choice(["u8", "i8", "u128", "i128", "usize", "u64", "i32", "u7", "x"]))
                 if len(sp) > 6: boundary.append(sp[:4] + "_" + sp[4:-3] + "_" + sp[-3:])
+    # literals LONGER than 128 bits in every digit pattern around the overflow test: the value wraps to something
+    # small exactly when high digits are followed by zeros (an overflow flag that is overwritten per digit instead
+    # of accumulated lets 0x10ff..f through), with separators and suffixes
+    for n in (33, 34, 35, 36, 40, 48, 64):
+        for head in ("1", "10", "f0", "100", "8", "ff"):
+            for fill in ("0", "f", "7"):
+                body = (head + fill * n)[:n]
+                boundary.append("0x" + body)
+                if fill == "0": boundary.append("0x" + body[:-1] + "1")
+        boundary.append("0x1_" + "0000_" * ((n - 1) // 4) + "0u8")
+        boundary.append("0x" + "1" + "0" * (n - 1) + "u128")
+    for n in (129, 130, 136, 160, 256):
+        for head in ("1", "10", "11", "100"):
+            for fill in ("0", "1"):
+                boundary.append("0b" + (head + fill * n)[:n])
+        boundary.append("0b" + "0" * (n - 128) + "1" * 128)                       # leading zeros (K6)
+    for n in (39, 40, 41, 45, 60):
+        for head in ("1", "3", "34", "9", "340282366920938463463374607431768211456"):
+            for fill in ("0", "9", "5"):
+                boundary.append((head + fill * n)[:n])
+    boundary += ["340282366920938463463374607431768211455", "340282366920938463463374607431768211456", "340282366920938463463374607431768211457",
+                 "3402823669209384634633746074317682114560", "680564733841876926926749214863536422912", "0x" + "0" * 10 + "f" * 32, "0x" + "0" * 10 + "1" + "f" * 32]
     boundary += ["9" * n for n in (38, 39, 40, 60)] + ["1" + "0" * n for n in (37, 38, 39, 40)] + ["0x" + "f" * n for n in (31, 32, 33)] + ["0b" + "1" * n for n in (127, 128)]
     for n in range(0, 9):
         hexs = "10FFFF00"[:n] if n else ""
